@@ -47,6 +47,10 @@ pub fn spec_for(seed: u64, index: u64) -> sysgen::SysSpec {
     if index % 6 == 2 {
         sysgen::add_array_io(&mut spec, index / 6);
     }
+    // literals and signals wider than one machine word
+    if index % 7 == 3 {
+        sysgen::add_wide_signals(&mut spec, index / 7);
+    }
     spec
 }
 
